@@ -119,6 +119,7 @@ static std::string in_child(std::function<std::string()> snap, std::function<std
     pid_t pid = ::fork();
     if (pid < 0) { std::perror("fork"); std::exit(2); }
     if (pid == 0) {
+        ::alarm(30); // a call that never returns (e.g. a loop running on a corrupted size) ends as ub(signal:14)
         ::close(p[0]);
         ::close(q[0]);
         ::dup2(q[1], 2);
